@@ -314,15 +314,23 @@ def facts(src_root):
             raise Untranslatable("macro_def emits " + repr(w))
         ok = ok and w[0].endswith(", context.eval_ctx.autoescape)")
     f["macro_default_rt"] = ok
-    raw = True
-    for oc in B:
-        evs = run(cg["visit_CallBlock"], outcheck=oc, known_ext=False)
-        names = [e[1] for e in evs if e[0] == "w" or (e[0] == "call" and e[1] in ("start_write", "visit_Call", "end_write"))]
-        if "start_write" not in names or "end_write" not in names:
-            raise Untranslatable("visit_CallBlock shape " + repr(names))
-        i, j = names.index("start_write"), names.index("end_write")
-        raw = raw and names[i:j + 1] == ["start_write", "visit_Call", "end_write"]
-    f["callblock_raw"] = raw
+    rows = []
+    for vol in B:
+        for ae in B:
+            kinds = set()
+            for oc in B:
+                evs = run(cg["visit_CallBlock"], vol=vol, ae=ae, outcheck=oc, known_ext=False)
+                names = [e[1] for e in evs if e[0] == "w" or (e[0] == "call" and e[1] in ("start_write", "visit_Call", "end_write"))]
+                if "start_write" not in names or "end_write" not in names:
+                    raise Untranslatable("visit_CallBlock shape " + repr(names))
+                shape = names[names.index("start_write"):names.index("end_write") + 1]
+                if len(shape) != 5 or shape[2] != "visit_Call" or shape[3] != ")" or shape[1] not in OW:
+                    raise Untranslatable("visit_CallBlock shape " + repr(shape))
+                kinds.add(OW[shape[1]])
+            if len(kinds) != 1:
+                raise Untranslatable("visit_CallBlock wrapper depends on require_output_check")
+            rows.append((vol, ae, kinds.pop()))
+    f["callblock"] = rows
     # ---- ~
     rows = []
     for vol in B:
@@ -380,7 +388,7 @@ def emit(src_root):
             f"  f_const := {tbl(f['const'])};\n  f_fblock := {tbl(f['fblock'])};\n  f_fbuf := {tbl(f['fbuf'])};\n"
             f"  f_retbuf := {tbl(f['retbuf'])};\n  f_assign_plain := {f['assign_plain']};\n  f_assign_filter := {f['assign_filter']};\n"
             f"  f_concat := {tbl(f['concat'])};\n  f_macro_forced := {b(f['macro_forced'])};\n"
-            f"  f_macro_default_rt := {b(f['macro_default_rt'])};\n  f_callblock_raw := {b(f['callblock_raw'])};\n"
+            f"  f_macro_default_rt := {b(f['macro_default_rt'])};\n  f_callblock := {tbl(f['callblock'])};\n"
             f"  f_invoke := {tbl(f['invoke'])};\n  f_blockref := {tbl(f['blockref'])} |}}.\n"
             "Theorem observed_ok : facts_ok observed = true.\nProof. vm_compute. reflexivity. Qed.\n"
             "Definition observed_sound := codegen_sound observed observed_ok.\n"
